@@ -748,7 +748,7 @@ package jrpc2
 
 //@ func (*Client).note
 //@   requires wfClient(c) && ctx != nil
-//@   ensures[C04:no-id] result1 == nil ==> result0 != nil && result0.ID == nil && result0.M == method
+//@   ensures[C04:no-id] result1 == nil ==> result0 != nil && result0.ID == nil && len(result0.ID) == 0 && result0.M == method
 //@   ensures result1 != nil ==> result0 == nil
 
 // send: nothing is transmitted once the client has stopped; the one Send
@@ -777,6 +777,7 @@ package jrpc2
 //@   modifies monitor(Client, c), held(fieldaddr(c, mu)), hookCalls, p.err, p.result, fired
 //@   at call.Error#1 assume[context.Context: Err is non-nil once Done is closed] err != nil
 //@   ensures[C05:unlocked] !held(fieldaddr(c, mu))
+//@   ensures[C05:hook-iff-unanswered] hookCalls == old(hookCalls) + ((atlock(in(c.pending, id)) && c.chook != nil) ? 1 : 0)
 
 // stopLocked: idempotent; closes the channel once, cancels callbacks and every
 // pending request, records the FIRST cause; returns the OnStop thunk.
@@ -808,3 +809,80 @@ package jrpc2
 //@   requires j != nil
 //@   fresh result0
 //@   ensures result1 == nil ==> len(result0) > 0
+
+// accept: one Recv; a failure (or an undecodable record) stops the client and
+// the OnStop thunk runs outside the lock; otherwise the members are delivered
+// by a goroutine that owes one Done.
+//@ func (*Client).accept
+//@   requires wfClient(c) && ch != nil && !held(fieldaddr(c, mu))
+//@   modifies monitor(Client, c), held(fieldaddr(c, mu)), fired, chCloses, chRecvs(ch), stopHooks
+//@   ensures[C05:unlocked] !held(fieldaddr(c, mu))
+//@   ensures[C05:stop-hook-at-most-once] stopHooks == old(stopHooks) || stopHooks == old(stopHooks) + 1
+//@   ensures[C05:failure-stops] result != nil ==> called("call.stopLocked#1")
+
+//@ func (*Client).accept$1
+//@   root
+//@   transfer wgDebt(c.done), 1
+//@   captures wfClient(c) && forall(i int, 0 <= i && i < len(in) ==> in[i] != nil)
+//@   requires !held(fieldaddr(c, mu))
+//@   modifies monitor(Client, c), held(fieldaddr(c, mu)), wgDebt(c.done)
+//@   ensures[C05:done-paid] wgDebt(c.done) == 0 && !held(fieldaddr(c, mu))
+//@   loop 1 invariant held(fieldaddr(c, mu)) && Client_mu_inv(c) && wgDebt(c.done) == 1 && c.nextID >= atlock(c.nextID) && reqsIssued(c) >= atlock(reqsIssued(c))
+
+// Close: stops (first cause wins), runs the OnStop thunk outside the lock, and
+// returns only after every goroutine tracked by c.done has paid its Done.
+//@ func (*Client).Close
+//@   nolockset reads c.err after done.Wait(): every writer has finished
+//@   requires wfClient(c) && !held(fieldaddr(c, mu))
+//@   modifies monitor(Client, c), held(fieldaddr(c, mu)), fired, chCloses, stopHooks
+//@   at call.Wait#1 assert[C05:wait-outside-lock] !held(fieldaddr(c, mu))
+//@   ensures[C05:unlocked] !held(fieldaddr(c, mu))
+//@   ensures[C05:waited] called("call.Wait#1")
+//@   ensures[C05:stop-hook-at-most-once] stopHooks == old(stopHooks) || stopHooks == old(stopHooks) + 1
+
+//@ func (*Client).IsStopped
+//@   requires wfClient(c) && !held(fieldaddr(c, mu))
+//@   modifies monitor(Client, c), held(fieldaddr(c, mu))
+//@   ensures !held(fieldaddr(c, mu))
+
+// Call / Batch / Notify: built from req/note, send and wait.
+//@ func (*Client).Call
+//@   requires wfClient(c) && !held(fieldaddr(c, mu)) && ctx != nil
+//@   modifies monitor(Client, c), held(fieldaddr(c, mu)), chSends, slotId, Response.err, Response.result, Response.ch
+//@   ensures[C05:reply-or-error] (result0 == nil) != (result1 == nil)
+//@   ensures !held(fieldaddr(c, mu))
+
+//@ func (*Client).Batch
+//@   requires wfClient(c) && !held(fieldaddr(c, mu)) && ctx != nil
+//@   modifies monitor(Client, c), held(fieldaddr(c, mu)), chSends, slotId, Response.err, Response.result, Response.ch
+//@   ensures[C04:at-most-one-per-spec] result1 == nil ==> len(result0) <= len(specs) && forall(i int, 0 <= i && i < len(result0) ==> result0[i] != nil)
+//@   ensures[C05:error-no-responses] result1 != nil ==> result0 == nil
+//@   ensures !held(fieldaddr(c, mu))
+//@   loop 1 invariant !held(fieldaddr(c, mu)) && forall(j int, 0 <= j && j < rangeindex + 1 ==> reqs[j] != nil && !(len(reqs[j].ID) == 4 && reqs[j].ID[0] == 'n'))
+//@   loop 2 invariant !held(fieldaddr(c, mu))
+
+//@ func (*Client).Notify
+//@   requires wfClient(c) && !held(fieldaddr(c, mu)) && ctx != nil
+//@   modifies monitor(Client, c), held(fieldaddr(c, mu)), chSends, slotId
+//@   ensures !held(fieldaddr(c, mu))
+
+// NewClient: the state is well-formed, the lock invariant holds for the new
+// object (no request pending, counter at 1), and exactly one reader goroutine
+// is started, owing one Done.
+//@ func NewClient
+//@   requires ch != nil
+//@   modifies reqsIssued
+//@   fresh result
+//@   at return#1 ghostset reqsIssued(c) = 0
+//@   ensures[C05:wellformed] wfClient(result) && result.ch == ch && result.err == nil && result.nextID == 1
+//@   ensures[C04:nothing-pending] forall(k string, !in(result.pending, k))
+//@   ensures[C04:inv-established] Client_mu_inv(result)
+
+//@ func NewClient$1
+//@   root
+//@   transfer wgDebt(c.done), 1
+//@   captures wfClient(c) && ch != nil
+//@   requires !held(fieldaddr(c, mu))
+//@   modifies monitor(Client, c), held(fieldaddr(c, mu)), fired, chCloses, chRecvs(ch), stopHooks, wgDebt(c.done)
+//@   ensures[C05:done-paid] wgDebt(c.done) == 0 && !held(fieldaddr(c, mu))
+//@   loop 1 invariant !held(fieldaddr(c, mu)) && wgDebt(c.done) == 1
